@@ -86,6 +86,11 @@ let dispatch (op : string) (x : v) : v =
       let (chunks, status) = M.read_all classify (to_nat fuel) (to_list to_nat bytes) in
       let st = S (match status with M.Eof -> "eof" | M.Trunc -> "trunc" | M.Corrupt -> "corrupt" | M.OutOfFuel -> "fuel") in
       L [of_list (fun c -> I (BZ.of_int (List.length c))) chunks; st]
+  | "rebin", [filt; nu] -> of_list of_q (M.rebin_m (to_list to_pt filt) (to_list to_q nu))
+  | "isub", [filt; a; b] -> of_q (M.isub_full (to_list to_pt filt) (to_q a) (to_q b))
+  | "normalize", [filt] -> of_list (fun (_, y) -> of_q y) (M.normalize_m (to_list to_pt filt))
+  | "conv", [flux; resp] -> of_q (M.conv_m (to_list to_q flux) (to_list to_q resp))
+  | "conv_var", [err; resp] -> of_q (M.conv_var_m (to_list to_q err) (to_list to_q resp))
   | "ndist", [l; step] -> of_z (M.ndist (to_q l) (to_q step))
   | "gridlog", [lo; hi; n] -> of_list of_q (M.gridlog_m (to_q lo) (to_q hi) (to_nat n))
   | "rank", [chi] -> of_list of_nat (M.rank_m (to_list to_xnum chi))
